@@ -188,7 +188,7 @@ def run_entry(entry, n, seed, acc, tier):
     @st.composite
     def case(draw):
         ch = docgen.HypChooser(draw)
-        mode = ch.choice(['plain', 'plain', 'hostile', 'hostile', 'many-groups', 'ta1'])
+        mode = ch.choice(['plain', 'plain', 'hostile', 'hostile', 'many-groups', 'ta1', 'mixed-maps'])
         kw = dict(envelope=.45)
         delims = None
         if mode == 'hostile':
@@ -197,11 +197,18 @@ def run_entry(entry, n, seed, acc, tier):
                       kinds=['too-long', 'not-in-code-list', 'wrong-char-class', 'extra-element', 'too-short', 'bad-date'])
         elif mode == 'many-groups':
             kw.update(shapes=[(1, 4, 1), (1, 6, 1), (1, 5, 2)], max_faults=3)
-        res = genfaulty.build(entry, ch, acc, **kw)
+        if mode == 'mixed-maps':
+            # groups of different maps (acknowledgement groups among them) in one interchange
+            res = genfaulty.build_mixed(ch, acc, max_faults=2, **kw)
+        else:
+            res = genfaulty.build(entry, ch, acc, **kw)
         if res is None:
             return {'skip': 'genfail'}
         doc, exps = res
         meta = genfaulty.meta_of(doc, exps)
+        if mode == 'mixed-maps':
+            meta['file'] = 'mixed'
+            meta['parts'] = [e['file'] for e in doc.parts]
         if mode == 'ta1' or ch.chance(.15):
             for s in doc.segs:
                 if s.id == 'ISA':
